@@ -2,13 +2,20 @@
 mod docbfs;
 mod lsp;
 
+pub static LAST_PANIC: std::sync::Mutex<String> = std::sync::Mutex::new(String::new());
+
 fn main() {
     let args: Vec<String> = std::env::args().collect();
     if args.len() < 2 {
         eprintln!("usage: mc_els <engine> [args]");
         std::process::exit(2);
     }
-    std::panic::set_hook(Box::new(|_| {}));
+    // panics are caught where they matter; keep the last message and location for the report
+    std::panic::set_hook(Box::new(|info| {
+        let loc = info.location().map(|l| format!("{}:{}", l.file().rsplit("/crates/").next().unwrap_or(l.file()), l.line())).unwrap_or_default();
+        let msg = info.payload().downcast_ref::<String>().cloned().or_else(|| info.payload().downcast_ref::<&str>().map(|s| s.to_string())).unwrap_or_default();
+        *LAST_PANIC.lock().unwrap() = format!("{msg} @ {loc}");
+    }));
     match args[1].as_str() {
         "doc-bfs" => docbfs::main(&args[2..]),
         "doc-dispatch" => docbfs::dispatch_main(&args[2..]),
